@@ -1896,12 +1896,15 @@ class Trion:
             fin = draw(st_freq(L["pfd"][0], 400e6))
             nout = draw(st.integers(1, L["nmax"]))
             fb = draw(st.integers(0, nout - 1))
-            how = draw(st.sampled_from(["rand", "byc", "byc", "byc", "near"]))
+            how = draw(st.sampled_from(["rand", "byc", "byc", "byc", "near", "edge"]))
             margins = draw(st.sampled_from([[0.0], [0.0], [0.0, 1e-4, 1e-2], [1e-4, 1e-2, 5e-2]]))
             phases = [draw(st.sampled_from(self.PH)) for _ in range(nout)]
             wit = None
+            if how == "edge":       # N one past the helper's 1..15 (needs f_in/16 inside the PFD window), exact frequencies
+                fin = draw(st_freq(16 * L["pfd"][0], 400e6))
+                margins = [0.0]
             if how != "rand":
-                wit = self.construct(draw, L, fin, nout, fb, phases)
+                wit = self.construct(draw, L, fin, nout, fb, phases, 16 if how == "edge" else None)
                 if wit is None:
                     how = "rand"
             outs = []
@@ -1917,19 +1920,19 @@ class Trion:
                         f = f * (1 + draw(st.sampled_from(NEAR)) * m)
                     outs.append([f, phases[n], m])
             c = {"fam": self.name, "cls": cls, "kw": kw, "vm": 0.0, "fin": fin, "outs": outs, "fb": fb, "how": how}
-            if wit is not None:
+            if wit is not None and how != "edge":
                 c["wit"] = wit
             return c
         return case()
 
-    def construct(self, draw, L, fin, nout, fb, phases):
+    def construct(self, draw, L, fin, nout, fb, phases, force_n=None):
         plo, phi = fwin(L["pfd"])
         vlo, vhi = fwin(L["vco"])
         qlo, qhi = fwin(L["pll"])
         a, b = max(1, int(math.ceil(fin / phi))), min(15, int(math.floor(fin / plo)))
         if a > b:
             return None
-        N = draw(st_between(a, b))
+        N = draw(st_between(a, b)) if force_n is None else force_n
         pfd = fin / N
         cands = []
         for O in self.ofact(nout):
